@@ -188,11 +188,12 @@ func writeHeaderValueBlock(w io.Writer, h http.Header) (n int, err error) {
 	}
 	n += 2
 	for name, values := range h {
+		// lower-casing may change the length in bytes (e.g. U+212A becomes "k")
+		name = strings.ToLower(name)
 		if err = binary.Write(w, binary.BigEndian, uint32(len(name))); err != nil {
 			return
 		}
 		n += 2
-		name = strings.ToLower(name)
 		if _, err = io.WriteString(w, name); err != nil {
 			return
 		}
